@@ -40,9 +40,9 @@ def regenerate(res):
     return None, hints
 
 MANIFEST = dict(
-   technique="Lean 4 proof by induction over modifier histories (internals = abstraction of the history; processModifiersCore transcribed) and over chains of Transform/Pipe wrappers (ZodTransform.Parse / ZodPipe.Parse transcribed, callback log included) + exhaustive short / random longer histories applied by reflection to real schemas of 30 types, bare and under every wrapper chain up to length 3 with logging sentinel callbacks, judged by the history-only specification",
-   text="c03_history_partial proves for every history (any length, any order) of Optional/Nilable/Nullish/NonOptional/Default/DefaultFunc/Prefault/PrefaultFunc that the engine's nil outcome is the documented one (default unchecked > prefault validated > nonoptional error > nil > type error); c03_witness_* prove the full statement false where an overwrite or a refinement is attached (known findings). For the schema wrapped in any chain of .Transform(f_i) / .Pipe(target_i) calls, c03_wrapped_default proves that with a default set a nil input returns what the bare schema returned and calls no transform function however many are chained (pipe targets, being second schemas, receive the default: C10's reading of Pipe), c03_wrapped_plain that without a default (prefault, Optional/Nilable nil) and for every non-nil input each wrapper runs exactly once, in order, on the previous one's output, and c03_wrapped_partial combines them with the history theorem into the statement over result and callback log for every chain (its only hypothesis is the clean-history one of c03_history_partial). The model is tied to /repo by applying every history up to length 2 (thorough: 3) plus random longer ones to real schemas through reflection and classifying Parse(nil)/Parse(typed nil) by sentinel default/prefault values; non-nil inputs are compared with the unmodified base schema (under the same wrappers) in the harness itself; wrapped cases are observed as a result term over the bare outcome plus the callback log.",
-   note="Trusted: Lean kernel; axioms propext/Classical.choice/Quot.sound at most; harness + comparer. Values are abstracted to valid/invalid w.r.t. the schema's own check. When both a value default and a function default are set the spec accepts either (lenient reading). Types with their own nil path (discriminated union, lazy) and Record's pointer variants deviate and are listed as known findings by failure class; Only Parse is exercised (StrictParse nil paths are C09's known findings); pipe targets and transform callbacks always succeed; bigint/complex/file/function/nil are not in the harness table. Callback arguments are compared up to numeric representation and nil-pointer vs zero value (a type's Transform wrapper dereferences).",
+   technique="Lean 4 proof by induction over modifier histories (internals = abstraction of the history; processModifiersCore transcribed), over chains of Transform/Pipe wrappers (ZodTransform.Parse / ZodPipe.Parse transcribed, callback log included) and over sequences of parses through one explicit ParseContext (context threaded as state; outcome independent of the context's history) + go/ast translator (ParseContext fields and every read/write site of its state, processModifiersCore's branch skeleton, the schema types declaring modifier methods vs the harness table -> Gen/C03Tables.lean, decided over the whole table on every run) + exhaustive short / random longer histories applied by reflection to real schemas of all 54 schema types, bare, under every wrapper chain up to length 3 with logging sentinel callbacks, in sequences through one caller-supplied context and as sibling children of one container parse, judged by the history-only specification",
+   text="c03_history_partial proves for every history (any length, any order) of Optional/Nilable/Nullish/NonOptional/Default/DefaultFunc/Prefault/PrefaultFunc that the engine's nil outcome is the documented one (default unchecked > prefault validated > nonoptional error > nil > type error); c03_witness_* prove the full statement false where an overwrite or a refinement is attached (known findings). For the schema wrapped in any chain of .Transform(f_i) / .Pipe(target_i) calls, c03_wrapped_default proves that with a default set a nil input returns what the bare schema returned and calls no transform function however many are chained (pipe targets, being second schemas, receive the default: C10's reading of Pipe), c03_wrapped_plain that without a default (prefault, Optional/Nilable nil) and for every non-nil input each wrapper runs exactly once, in order, on the previous one's output, and c03_wrapped_partial combines them with the history theorem into the statement over result and callback log for every chain (its only hypothesis is the clean-history one of c03_history_partial). The model is tied to /repo by applying every history up to length 2 (thorough: 3) plus random longer ones to real schemas through reflection and classifying Parse(nil)/Parse(typed nil) by sentinel default/prefault values; non-nil inputs are compared with the unmodified base schema (under the same wrappers) in the harness itself; wrapped cases are observed as a result term over the bare outcome plus the callback log. c03_ctx_history proves, for the engine with the ParseContext threaded as explicit state, that after any sequence of earlier parses through a context in any initial state the next parse yields what it yields through a fresh context (c03_ctx_history_discriminates: a step function that leaves a flag on the context after a failing prefault is rejected), and c03_ctx_seq_partial that every parse of every such sequence meets the statement for its own history and input; sequences of 1-5 parses (Parse/ParseAny/MustParse/StrictParse) through one caller-supplied context and the same steps as tuple items / object fields are run against the real code, each step also through a fresh context. c03_ctx_never_written, c03_ctx_state_read_only_for_messages, c03_pmc_structure_as_transcribed and c03_harness_covers_every_schema_type are decided over the table the translator regenerates from the sources on every run.",
+   note="Trusted: Lean kernel; axioms propext/Classical.choice/Quot.sound at most; harness + comparer + the go/ast translator (write detection is syntactic). Values are abstracted to valid/invalid w.r.t. the schema's own check. When both a value default and a function default are set the spec accepts either (lenient reading). Types with their own nil path (discriminated union, lazy) and Record's pointer variants deviate and are listed as known findings by failure class (the model echoes them; pending fixes make du and lazy follow the engine). StrictParse steps are judged for context independence only (their nil outcome vs Parse is C09's subject); ParseAny/MustParse are exercised in the sequence lines; pipe targets and transform callbacks always succeed; array children are not observed (child issues are re-coded as invalid_element). Callback arguments are compared up to numeric representation and nil-pointer vs zero value (a type's Transform wrapper dereferences).",
    design="DESIGN.md §5 C03")
 
 MODULES = ["Gozod.Proofs.C03"]
@@ -180,11 +180,15 @@ def run(res):
         return res.finish()
     C.decide(res, "C03", data, key, "C03/processModifiersCore+modifier-methods+ZodTransform/ZodPipe", describe=describe)
     res.coverage["rule"] = ("every history of length <=2 (thorough <=3) over 14 ops (4 flags, Default/DefaultFunc/Prefault/PrefaultFunc x valid/invalid argument, "
-        "identity Overwrite, always-true Refine) plus random histories up to length 5, x 30 schema types (string, stringptr, int, int8, int64ptr, uint16, float64, float32, bool, "
-        "slice, object, record, array, enum, literal, any, unknown, union, intersection, discriminated union, lazy, tuple, set, map, xor, struct, time, stringbool, email, never) x inputs {nil, typed nil pointer, valid, invalid}; "
+        "identity Overwrite, always-true Refine) plus random histories up to length 5, x 58 table rows covering all 54 schema types of package types that declare modifier methods (string, stringptr, int, int8, int64ptr, uint16, float64, float32, bool, "
+        "slice, object, record, array, enum, literal, any, unknown, union, intersection, discriminated union, lazy, lazyany, tuple, set, map, xor, struct, time, stringbool, email, never, nil, complex, bigint, file, function, iso and 21 string formats) x inputs {nil, typed nil pointer, valid, invalid}; "
         "each applicable history additionally under chains of .Transform(f_i)/.Pipe(logging target_i) (every chain of length <=3 for histories of length <=1 (thorough <=2), every chain of length <=2 for the other exhaustive histories, "
-        "two random chains per random history), observing result term and callback log. distinct = distinct op lines.")
+        "two random chains per random history), observing result term and callback log; "
+        "cseq: every ordered pair of (8 types (thorough 16) x 13 histories of length <=1) nil parses through one fresh context + 12000 (thorough 150000) random sequences of 1-5 parses "
+        "(random row, history <=3, input, entry point Parse/ParseAny/MustParse/StrictParse) through one context in one of 5 caller-made states, every step re-run through a fresh context; "
+        "csib: the same pairs as items of one tuple + 8000 (100000) random tuples/objects of 2-4 children with and without an explicit context. distinct = distinct op lines.")
     res.assumptions += ["sentinel default/prefault values identify the source of a returned value", "lenient reading when both default kinds are set",
                         "'default without running checks or transforms' speaks about the schema owning the default (its checks and Transform callbacks); a Pipe target is a second schema and receives whatever its source stage returns, a default included (C10's definition of Pipe)",
-                        "callback arguments compared up to numeric representation and nil pointer vs zero value"]
+                        "callback arguments compared up to numeric representation and nil pointer vs zero value",
+                        "a container's error tells a child's nonoptional error from its type error only by message text, so both count as invalid_type there"]
     return res.finish()
